@@ -62,6 +62,93 @@ UNITS["orswot"] = {
     "timeout_quick": 900,
 }
 
+UNITS["rpc_registry"] = {
+    "kind": "kani",
+    "crate": "harness/rpc_registry",
+    "harness_mod": "server::verif_contracts",
+    "kani_flags": [],
+    "env": {"VCOLL_CAP": "4"},
+    "sources": ["datacake-rpc/src/server.rs"],
+    "slice": [{
+        "mode": "items", "src": "datacake-rpc/src/server.rs", "out": "server.rs",
+        "prelude": "/verif/harness/rpc_registry/src/prelude.rs",
+        "items": [
+            {"kind": "struct", "name": "ServerState"},
+            {"kind": "impl", "name": "ServerState", "header": r"impl ServerState\s*\{"},
+        ],
+        "append": ['#[cfg(kani)] #[path = "/verif/harness/rpc_registry/src/contracts.rs"] mod verif_contracts;'],
+    }],
+    "extraction": "items `struct ServerState` and `impl ServerState` (add_handlers, remove_handlers, get_handler) cut verbatim and pasted after "
+                  "harness/rpc_registry/src/prelude.rs; nothing inside the items is edited",
+    "functions": ["ServerState::add_handlers", "ServerState::remove_handlers", "ServerState::get_handler"],
+    "assumptions": [
+        "parking_lot Mutex/RwLock give exclusive access (modelled as single-owner cells; no concurrency in Kani)",
+        "crate::hash (SipHash) is injective on the registered URIs (stand-in: injective function on the 4 harness URIs)",
+        "handler objects are opaque ids; Arc is a leak-based shared pointer",
+        "vcoll concrete maps (capacity 4) stand in for BTreeMap; BTreeSet<HandlerKey> values are 64-bit masks (vcoll::BitSet)",
+    ],
+    "timeout_quick": 900,
+}
+
+UNITS["rpc_view"] = {
+    "kind": "kani",
+    "crate": "harness/rpc_view",
+    "harness_mod": "contracts",
+    "kani_flags": [],
+    "sources": ["datacake-rpc/src/rkyv_tooling/view.rs", "datacake-rpc/src/rkyv_tooling/mod.rs"],
+    "slice": [
+        {"mode": "items", "src": "datacake-rpc/src/rkyv_tooling/view.rs", "out": "view.rs",
+         "prelude": "/verif/harness/rpc_view/src/prelude_view.rs",
+         "drop_attrs": ["derive", "error"],
+         "items": [
+             {"kind": "struct", "name": "InvalidView"},
+             {"kind": "struct", "name": "DataView"},
+             {"kind": "impl", "name": "DataView (using/as_bytes/into_data)",
+              "header": r"impl<T> DataView<T>\s+where\s+T: Archive,\s+T::Archived: 'static,\s*\{"},
+             {"kind": "impl", "name": "Deref for DataView", "header": r"impl<T> Deref for DataView<T>"},
+         ],
+         "require": [r"fn using\(data: AlignedVec\)", r"crc32fast::hash", r"archived_root"]},
+        {"mode": "items", "src": "datacake-rpc/src/rkyv_tooling/mod.rs", "out": "tooling.rs",
+         "prelude": "/verif/harness/rpc_view/src/prelude_tooling.rs",
+         "items": [
+             {"kind": "type", "name": "DatacakeSerializer"},
+             {"kind": "fn", "name": "to_view_bytes"},
+         ]},
+    ],
+    "extraction": "items InvalidView, DataView, `impl<T> DataView<T>` (using, as_bytes, into_data), `impl Deref for DataView` from view.rs and "
+                  "DatacakeSerializer, to_view_bytes from mod.rs, cut verbatim; dropped attributes: #[derive(..)] / #[error(..)] on InvalidView (thiserror)",
+    "functions": ["DataView::using", "DataView::as_bytes", "<DataView as Deref>::deref", "to_view_bytes"],
+    "assumptions": [
+        "crc32fast::hash is an uninterpreted function (arbitrary u32 per distinct input, equal for equal inputs); nothing about CRC-32's error detection is proved: "
+        "'every single-bit corruption is refused' follows from the proved frame contract only together with the ASSUMED property that CRC-32 changes under any single-bit change",
+        "rkyv::archived_root stand-in asserts the length part of the real function's safety contract and performs the same pointer computation; rkyv (de)serialisation "
+        "correctness (handler observes a value equal to the one sent; Status code/message round trip) is assumed, not verified",
+        "T::Archived instantiated at sizes 1, 8, 24 bytes with alignment 1; frames of every length up to 40 bytes (AlignedVec stand-in capacity)",
+        "unsafe in scope: the lifetime transmute and archived_root call in DataView::using (covered by Kani's pointer checks and the asserted precondition)",
+    ],
+    "timeout_quick": 900,
+}
+
+import copy
+UNITS["orswot_b"] = copy.deepcopy(UNITS["orswot"])
+UNITS["orswot_b"].update({
+    "crate": "harness/orswot_b",
+    "harness_mod": "orswot::verif_contracts_b",
+    "extraction": "whole-file copy of orswot.rs; `use std::collections...` lines redirected to vcoll; `Vec`/`vec!` shadowed by the "
+                  "fixed-capacity vcoll::VVec (2 lines prepended); one `mod` line appended",
+    "functions": ["OrSWotSet::diff", "OrSWotSet::purge_old_deletes", "OrSWotSet::add_raw_tombstones", "OrSWotSet::merge", "NodeVersions::merge"],
+    "timeout_quick": 1200, "timeout_thorough": 2400,
+})
+UNITS["orswot_b"]["slice"][0].update({
+    "prepend": ["use vcoll::vvec::VVec as Vec;",
+                "#[allow(unused_macros)] macro_rules! vec { ($($t:tt)*) => { vcoll::vvec!($($t)*) }; }"],
+    "append": ['#[cfg(kani)] #[path = "/verif/harness/orswot/src/contracts_b.rs"] mod verif_contracts_b;'],
+})
+UNITS["orswot_b"]["assumptions"] = UNITS["orswot"]["assumptions"] + [
+    "vcoll::VVec (fixed capacity 8, stable insertion sort) stands in for Vec / slice::sort_by_key",
+    "concrete vcoll maps iterate BTreeMap in key order and HashMap in insertion order (one of the orders std may produce)",
+]
+
 # --------------------------------------------------------------------------- obligations
 # name -> dict(unit, harness|file, cls, bound, tier, fn, stmt)
 OBLIGATIONS = {}
@@ -72,6 +159,11 @@ def _k(name, unit, cls, fn, stmt, tier="quick", bound=None, harness=None, known=
         name=name, unit=unit, engine="kani/cbmc+cadical", harness=harness or name, cls=cls,
         bound=bound, tier=tier, fn=fn, stmt=stmt,
     )
+
+
+def _v(name, file, fn, stmt, expect, tier="quick"):
+    OBLIGATIONS[name] = dict(name=name, unit=None, engine="verus/z3", file=file, cls="P", bound=None, tier=tier,
+                             fn=fn, stmt=stmt, expect_verified=expect, harness=None)
 
 
 # ---- unit timestamp
@@ -126,6 +218,48 @@ _k("os_cutoff_monotone", "orswot", "P", "insert_with_source / delete_with_source
 _k("os_lacks", "orswot", "P", "OrSWotSet::check_self_then_insert_to",
    "appends (k, ts) iff ts strictly newer than held entry, else than held tombstone, else (nothing held) not before the cut-off; S unchanged")
 
+# ---- unit orswot_b (class B: the iterated collection is concrete and bounded)
+_k("os_diff_list", "orswot_b", "B", "OrSWotSet::diff",
+   "S arbitrary/unbounded, O with <= 2 live + <= 2 tombstones: changes == live entries of O that S lacks (peer's stamps, once each); "
+   "removals likewise from O's tombstones; nothing else listed", bound="|O.entries| <= 2, |O.dead| <= 2")
+_k("os_purge_all", "orswot_b", "B", "OrSWotSet::purge_old_deletes",
+   "<= 3 tombstones, entries/versions arbitrary: dropped+returned iff before the cut-off of its origin; entries, newest stamps, cut-offs untouched",
+   bound="|dead| <= 3")
+_k("os_raw_tombstones", "orswot_b", "B", "OrSWotSet::add_raw_tombstones",
+   "<= 2 items: exactly the listed keys become tombstones at the listed stamps; everything else untouched", bound="list <= 2")
+
+# ---- unit rpc_registry (class B: inductive step within 3 services x 2 keys over 4 URIs)
+_RB = "4 URIs, 3 services, <= 2 keys per service; arbitrary start state satisfying the registry invariant"
+_k("reg_lookup", "rpc_registry", "B", "ServerState::get_handler",
+   "for every state satisfying I: a URI is dispatched iff its key is owned by a registered service, to the handler registered for it", bound=_RB)
+_k("reg_add_step", "rpc_registry", "B", "ServerState::add_handlers",
+   "from any state satisfying I: the added handlers (<= 2) are served under the service, everything else unchanged, I preserved", bound=_RB)
+_k("reg_remove_step", "rpc_registry", "B", "ServerState::remove_handlers",
+   "from any state satisfying I: exactly the removed service's handlers disappear (none left behind), every other service keeps every handler, I preserved", bound=_RB)
+
+# ---- unit rpc_view (frames of every length <= 40 bytes; complete in logic, bounded only in buffer length)
+for _sz in (1, 8, 24):
+    _k(f"view_using_{_sz}", "rpc_view", "P", "DataView::using",
+       f"Archived size {_sz}: Ok <=> len >= 4+size and crc(body) == le32(trailer); crc computed over exactly the body; no access outside the buffer "
+       "(pointer checks + asserted archived_root precondition); accepted view exposes the frame bytes and the root at the end of the body",
+       bound="frame length <= 40 bytes")
+for _sz in (8, 24):
+    _k(f"view_roundtrip_{_sz}", "rpc_view", "P", "to_view_bytes; DataView::using",
+       f"Archived size {_sz}: to_view_bytes == body || le32(crc(body)) for any serialiser output; using(to_view_bytes(v)) is Ok; serialisation failure is reported",
+       bound="frame length <= 40 bytes")
+
+# ---- Verus lemma layer (each file = shared exec kernels proved equal to spec kernels + lemmas)
+_v("lemmas_lww", "lemmas/lww.rs", "kernels k_insert/k_delete/k_cut/k_before/k_will_apply/k_lacks/k_max_stamp/k_safe; lemma layer",
+   "exec kernel == spec kernel for all 8 kernels; lemma_fold_lww: any arrival order of accepted ops with distinct stamps ends at "
+   "as_slot(greatest-stamp op) (induction over Seq<Op>); order independence; insert wins exact tie; will_apply <=> slot changes; "
+   "strictly-inside-window => not before cut-off; cut monotone", 20)
+_v("lemmas_repair", "lemmas/repair.rs", "lemma layer over sk_lacks / sk_insert / sk_delete",
+   "per key and lifted pointwise: item kind; after applying the (accepted) difference the second difference is empty whatever the cut-off became; "
+   "repaired == join (greatest stamp, insert wins tie); two-way exchange => identical live ids and stamps; window hypothesis => accepted", 17)
+_v("lemmas_purge", "lemmas/purge.rs", "lemma layer over sk_before / sk_will_apply / sk_insert / sk_delete",
+   "purged tombstone (d < L): every op from that origin with t <= d is refused now and under any later (larger) cut-off; purging is invisible: "
+   "decision and live part identical with and without the tombstone for ANY later op; simulation step preserved under growing cut-off", 13)
+
 # --------------------------------------------------------------------------- properties
 PROPERTIES = {
     "C09": {
@@ -140,8 +274,31 @@ PROPERTIES = {
     },
     "C04": {
         "obligations": ["os_safe_stamp", "os_before", "os_versions_update", "os_will_apply", "os_get",
-                        "os_insert_contract", "os_delete_contract", "ts_order_lex"],
+                        "os_insert_contract", "os_delete_contract", "ts_order_lex", "lemmas_lww"],
         "level": "proof", "explanation": "", "assumptions": [],
+    },
+    "C05": {
+        "obligations": ["os_lacks", "os_diff_list", "os_insert_contract", "os_delete_contract", "lemmas_repair"],
+        "level": "proof", "explanation": "", "assumptions": [],
+    },
+    "C08": {
+        "obligations": ["os_purge_all", "os_raw_tombstones", "os_before", "os_cutoff_monotone", "os_insert_contract", "os_delete_contract", "os_will_apply", "lemmas_purge"],
+        "level": "proof", "explanation": "", "assumptions": [],
+    },
+    "C12": {
+        "obligations": ["view_using_1", "view_using_8", "view_using_24", "view_roundtrip_8", "view_roundtrip_24"],
+        "level": "proof",
+        "explanation": "",
+        "assumptions": ["value equality end to end (rkyv serialise/deserialise) and the single-bit-detection property of CRC-32 are assumed dependencies; "
+                        "what is proved is the frame contract of the code in /repo"],
+    },
+    "C13": {
+        "obligations": ["reg_lookup", "reg_add_step", "reg_remove_step"],
+        "level": "other",
+        "explanation": "bounded contract checking (class B): one add/remove step from an ARBITRARY registry state satisfying the invariant, "
+                       "within 3 services x 2 keys over 4 URIs -- an inductive step, so it covers every add/remove history inside that size; "
+                       "not counted as proved because the registry maps are concrete with a capacity bound",
+        "assumptions": ["HTTP dispatch glue (net/server.rs try_handle_request -> get_handler -> Status::unavailable) is read, not verified"],
     },
     "C10": {
         "obligations": [
